@@ -220,6 +220,65 @@ def c05(res, tier, seed):
         for c in cases:
             bufs += c["bufs"]
         sets.append({"units": ordered, "cases": cases, "bufs": bufs, "placement": placement, "nsname": nsname})
+    # rule sets built for the automaton: strings that are suffixes / overlaps of each other and diverge on bytes that are related
+    # bit-wise (same value modulo 8 / 32 / 64 / 128, neighbours): the transition sets and the failure-link optimisation of
+    # ahocorasick.c work on bitmaps of the next bytes (AhoCorasick.tla, BlindOptimise)
+    for si in range(12 if tier == "quick" else 150):
+        base = r.randrange(256)
+        fam = sorted({(base + d) & 0xff for d in (0, 8, 16, 24, 32, 64, 128, 1, 255)} | {base ^ 0x20, base ^ 0x80})
+        r.shuffle(fam)
+        fam = fam[:r.randint(3, 6)]
+        P = r.sample([x for x in range(1, 256) if x not in fam], 3)
+        t, u = r.sample([x for x in range(1, 256) if x not in fam and x not in P], 2)
+        strs = []
+        for d in fam:
+            k = r.random()
+            if k < 0.4: strs.append(P + [d])
+            elif k < 0.8: strs.append(P[1:] + [d, t])
+            else: strs.append(P[2:] + [d, t, u])
+        strs.append(P[1:] + [fam[0], t]); strs.append(P + [fam[-1]])
+        uniq = []
+        for x in strs:
+            if x not in uniq: uniq.append(x)
+        cases = []
+        bufs = [b"".join(bytes(P + [d, t, u]) + bytes([0x7a] * r.randint(0, 2)) for d in fam),
+                b"".join(bytes(P[:2]) + bytes(P + [d, t]) for d in reversed(fam)),
+                bytes(P) * 2 + bytes([fam[0], t, u]) + bytes(P[1:]) + bytes([fam[-1], t])]
+        for pat in uniq:
+            nm = "t%d" % idx; idx += 1
+            m = text.random_mods(r, allow_b64=False)
+            m.update({"wide": False, "ascii_explicit": False, "nocase": False, "fullword": False, "xor": False, "private": False})
+            def rec(sc, verdict, bb, pat=pat, m=m):
+                return {"kind": "text", "pat": pat, "mods": text.tla_mods(m), "buf": list(bb), "obs": [[o, l, kk] for o, l, kk, p in sc.get("$s", [])]}
+            cases.append(dict(name=nm, body='rule %s { strings: $s = "%s" condition: #s >= 0 }' % (nm, text.esc(pat)), kind="text", bufs=bufs, rec=rec, noise=[], needs_prelude=False))
+        order = list(cases); r.shuffle(order)
+        sets.append({"units": [("ns1", "\n".join(c["body"] for c in order))], "cases": cases, "bufs": bufs, "placement": {c["name"]: 1 for c in cases}, "nsname": (lambda k: "ns%d" % k)})
+    res.cov["parts"]["automaton_alias_sets"] = 12 if tier == "quick" else 150
+    # crowds: 63 / 64 / 65 / 128+ other rules before and after rules whose condition can hold without any string match (the per-rule
+    # and per-string tables of the scanner are bitmaps of 64-bit words sized from the counts of rules, strings and namespaces)
+    I = lambda v: {"t": "int", "v": v}
+    crowd_conds = [{"t": "not", "x": {"t": "sfound", "s": "$_a"}}, {"t": "of", "q": "none", "set": list(cg.STRS), "them": True},
+                   {"t": "cmp", "op": ">=", "l": {"t": "filesize"}, "r": I(0)}, {"t": "cmp", "op": "==", "l": {"t": "scount", "s": "$_b"}, "r": I(0)},
+                   {"t": "or", "l": {"t": "sfound", "s": "$_a"}, "r": {"t": "cmp", "op": "<", "l": {"t": "filesize"}, "r": I(1000)}},
+                   {"t": "and", "l": {"t": "sfound", "s": "$_a"}, "r": {"t": "sfound", "s": "$_c"}}]
+    ncrowd = 0
+    for nbefore in ([63, 64, 65, 130] if tier == "quick" else [1, 62, 63, 64, 65, 66, 127, 128, 129, 200]):
+        for nafter in (0, 70):
+            cases = []
+            cbufs = [b"", b"zzzz", b"#1#", b"#1#..=3=", b"+2+"]
+            for ast in crowd_conds:
+                nm = "t%d" % idx; idx += 1
+                strs = " ".join('%s = "%s"' % (x, cg.STR_TEXT[x].decode()) for x in cg.STRS)
+                def rec(sc, verdict, bb, ast=ast):
+                    mm = {x: [[o, l] for o, l, kk, p in sc.get(x, [])] for x in cg.STRS}
+                    env = {"buf": list(bb), "filesize": len(bb), "entrypoint": -1, "m": mm, "ext": cond.EXT_ENV, "rules": {"r_true": True, "r_false": False, "r_true2": True}}
+                    return {"kind": "cond", "ast": cg.strip_for_tla(ast), "env": env, "obs": verdict}
+                cases.append(dict(name=nm, body="rule %s { strings: %s condition: %s }" % (nm, strs, cg.show(ast)[0]), kind="cond", bufs=cbufs, rec=rec, noise=[], needs_prelude=True))
+            fill = lambda a, n: "\n".join('rule fill%d_%d { strings: $f = "fill%d" condition: $f }' % (ncrowd, a + k, a + k) for k in range(n))
+            src = fill(0, nbefore) + "\n" + cond.PRELUDE + "\n".join(c["body"] for c in cases) + "\n" + fill(1000, nafter)
+            sets.append({"units": [("ns1", src)], "cases": cases, "bufs": cbufs, "placement": {c["name"]: 1 for c in cases}, "nsname": (lambda k: "ns%d" % k)})
+            ncrowd += 1
+    res.cov["parts"]["crowd_sets"] = ncrowd
     # pass 1: every case compiled ALONE (cases that do not compile are dropped; the observation alone is kept for the direct comparison)
     alone_sets, index = [], []
     for si, s in enumerate(sets):
@@ -277,7 +336,9 @@ def c05(res, tier, seed):
                     owners.append((c["body"], b.hex(), o["strings"], o["verdict"], len(s["cases"]), ci + si))
                     res.count(1, (c["body"], b))
     judge_and_report(res, "C05", records, owners, lambda o: {"rule": o[0], "buf": o[1][:300], "strings": o[2], "verdict": o[3], "company": o[4], "set": o[5]}, wd, "c05")
-    ac_pass(res, wd, [s for s in sets if s["cases"]][: (15 if tier == "quick" else 200)], tier)
+    nalias = 12 if tier == "quick" else 150
+    plain = sets[:len(sets) - nalias - ncrowd]; alias = sets[len(sets) - nalias - ncrowd:len(sets) - ncrowd]
+    ac_pass(res, wd, [s for s in plain if s["cases"]][: (15 if tier == "quick" else 200)] + [s for s in alias if s["cases"]], tier)
     if owners:
         res.sample({"rule": owners[0][0], "compiled_with": owners[0][4], "buf": owners[0][1][:120]})
     units_check(res, r, wd, tier)
